@@ -172,6 +172,32 @@ def sgx_flow(rng, tmp, alter, wrong_root=False, root_variant=None, **kw):
 
 LEDGER_ALTER = ["device_sig", "device_pub", "att_sig", "att_pub", "ui_hash", "ui_msg", "ui_sig", "signer_sig",
                 "signer_msg", "signer_hash"]
+def pem_ders(text):
+    """the certificates a PEM text holds, decoded independently of the code under test: for each BEGIN marker
+    the base64 alphabet characters up to the next armour dash, decoded leniently; None where undecodable"""
+    import base64
+    import re
+    out = []
+    for m in re.finditer(rb"-----BEGIN CERTIFICATE-----\n", text):
+        body = text[m.end():]
+        cut = body.find(b"-")
+        body = body[:cut] if cut >= 0 else body
+        b64 = re.sub(rb"[^A-Za-z0-9+/=]", b"", body)
+        try:
+            out.append(base64.b64decode(b64))
+        except Exception:
+            out.append(None)
+    return out
+
+
+def certs_changed(dev):
+    from cryptography.hazmat.primitives import serialization
+    pems = [c.public_bytes(serialization.Encoding.PEM) for c in (dev.qe_c, dev.plat_c, dev.root_c)]
+    cd = b"".join(pems[:dev.ncerts])
+    genuine_ders = [c.public_bytes(serialization.Encoding.DER) for c in (dev.qe_c, dev.plat_c, dev.root_c)][:dev.ncerts]
+    return pem_ders(dev.alt("certs", cd)) != genuine_ders
+
+
 SGX_ALTER = ["quote", "sig", "attkey", "qe_body", "qe_sig", "auth", "certs", "tail", "msg"]
 
 
@@ -262,6 +288,12 @@ def run(ctx):
             alter = {what: (rng.randrange(5000), rng.randrange(8))}
             stage, err, out, dev = sgx_flow(rng, tmp, alter)
             note(res, stage)
+            if stage == "ok" and what == "certs" and not certs_changed(dev):
+                # the flipped bit fell in the PEM armour (a line break, the END marker, unused padding bits):
+                # every certificate of the chain decodes to the same DER, so no certificate was altered
+                res["distribution"]["neutral_armour_alterations"] = \
+                    res["distribution"].get("neutral_armour_alterations", 0) + 1
+                continue
             if stage == "ok":
                 res["violations"].append({"key": "C15:sgx-alteration-accepted:%s" % what,
                                           "what": "a bit flipped in the device's %s went unnoticed" % what,
